@@ -399,3 +399,20 @@ package syncer
 //@   assert at call skipKey: skip_record_uses_target_key: key == targetKeyStr
 //@   ensures ignore_builds_nothing: probedB == 1 && policyB == "ignore" ==> result0 == nil && result1 && result2 == nil
 //@   ensures error_stops: probedB == 1 && policyB == "error" ==> result2 != nil && result0 == nil
+
+// ---- cluster-mode replay units are single-slot or refused (C18) -----------------------------
+//   pinned  the unit's slot once it is known (first key of the first command, or the forced slot)
+//@ func buildBisyncReplayUnitWithMode
+//@   arith int
+//@   properties C18
+//@   ghost var pinned mathint = 0 - 1
+//@   modifies heap, pinned
+//@   set pinned = slot after store slotKnown
+//@   assert after store keysSeen: every_key_in_the_unit_slot: slotMode.forceSlot == nil && !slotMode.allowCrossSlot ==> keySlot == pinned
+//@   ensures unit_slot_is_the_pinned_slot: result1 == nil ==> result0 != nil && result0.Slot == pinned && pinned >= 0
+//@   ensures refused_units_send_nothing: result1 != nil ==> result0 == nil
+//@   loop 1:
+//@     invariant pinned_once: (slotKnown ==> slot == pinned && pinned >= 0) && keysSeen >= 0
+//@   loop 2:
+//@     invariant pinned_once: (slotKnown ==> slot == pinned && pinned >= 0) && keysSeen >= 0
+//@     invariant known_after_first_key: rangeindex#2 >= 0 ==> slotKnown
